@@ -81,11 +81,11 @@ func (r *Report) add(rule, key, status, pos, msg string, detail any) {
 	r.Obligs = append(r.Obligs, Oblig{Rule: rule, Key: key, Status: status, Pos: pos, Msg: msg, Detail: detail})
 }
 
-func (r *Report) OK(rule, key, pos string)                 { r.add(rule, key, Discharged, pos, "", nil) }
-func (r *Report) OKd(rule, key, pos string, d any)         { r.add(rule, key, Discharged, pos, "", d) }
-func (r *Report) Bad(rule, key, pos, msg string, d any)    { r.add(rule, key, Violated, pos, msg, d) }
-func (r *Report) Undec(rule, key, pos, msg string)         { r.add(rule, key, Undecided, pos, msg, nil) }
-func (r *Report) Unres(rule, key, pos, msg string)         { r.add(rule, key, Unresolved, pos, msg, nil) }
+func (r *Report) OK(rule, key, pos string)                  { r.add(rule, key, Discharged, pos, "", nil) }
+func (r *Report) OKd(rule, key, pos string, d any)          { r.add(rule, key, Discharged, pos, "", d) }
+func (r *Report) Bad(rule, key, pos, msg string, d any)     { r.add(rule, key, Violated, pos, msg, d) }
+func (r *Report) Undec(rule, key, pos, msg string)          { r.add(rule, key, Undecided, pos, msg, nil) }
+func (r *Report) Unres(rule, key, pos, msg string)          { r.add(rule, key, Unresolved, pos, msg, nil) }
 func (r *Report) Check(ok bool, rule, key, pos, msg string) { r.CheckD(ok, rule, key, pos, msg, nil) }
 func (r *Report) CheckD(ok bool, rule, key, pos, msg string, d any) {
 	if ok {
